@@ -132,6 +132,7 @@ type Options struct {
 	SelectChoice    bool          // choosing a later ready select arm is offered as a deviation
 	FreeTimers      bool          // a short timer firing early costs no deviation (programs about time-outs)
 	UnlockPoints    bool          // every Unlock / RUnlock is followed by a scheduling point (release points)
+	RoundRobin      bool          // the default choice at every point is the *next* enabled thread (maximal interleaving) instead of the running one
 }
 
 var Opt = Options{LongTimer: time.Second, StepHorizon: 200000, TimerDeviations: true, SelectChoice: true}
@@ -193,6 +194,18 @@ func (s *Sched) canonical(me *Thread) (ids []int, curEn bool) {
 		}
 	}
 	if curEn {
+		if Opt.RoundRobin && len(ids) > 0 {
+			// the threads after the running one first (cyclically), the running one last: the default
+			// schedule then alternates between the threads at every point instead of running each to its
+			// next block — one more schedule, as legitimate as the run-to-block one, in which background
+			// jobs overlap
+			k := 0
+			for k < len(ids) && ids[k] < me.ID {
+				k++
+			}
+			rot := append(append([]int{}, ids[k:]...), ids[:k]...)
+			return append(rot, me.ID), curEn
+		}
 		ids = append([]int{me.ID}, ids...)
 	}
 	return ids, curEn
